@@ -18,7 +18,8 @@ PID = 'C12'
 RULE = ('single-operation buckets (each public operation family first, then up to 2 cheap instructions) and composition buckets from the '
         'concolic program generator; D in 2..10 (reverse 2..6), fwd-largeD buckets D in {12,...,24}, every D\' in 1..D-1 is checked for each case; P in 1..3 with different base '
         'points.  Non-trivial = D >= 4 (so that some 2 <= D\' < D exists) and some input coefficient of order >= D\'=2 is non-zero; '
-        'distinct by descriptor hash')
+        'distinct by descriptor hash.  drivers-padded: init_* rays carried with 1..3 extra arbitrary coefficients, extract_* must return what it '
+        'returns for exactly D = 2 / 3 (non-trivial = non-linear program and non-zero padding)')
 ASSUMPTIONS = [
     'tolerance 1e-12 relative to max(1, max|coefficient layer of that order|) - per order, so that a vanishing low-order layer is seen next to huge high-order ones; D\' = 1 vs plain NumPy execution 1e-12',
     'forward buckets admit kink points (abs/sign/clip at the kink, ties of minimum/maximum): truncation invariance does not need smoothness; fwd-growth buckets scale coefficient k by g^k (g up to 100, D up to 10) for bilinear operations',
